@@ -334,8 +334,10 @@ impl<Endpoint: Ord + Clone> BlockHandler<Endpoint> {
     /// before producing it.
     fn compute_message_size_hack(packet: &mut Packet) -> usize {
         let moved_payload = mem::take(&mut packet.payload);
+        // Measure without the size limit: a message whose options alone
+        // exceed it must be reported as too large, not panic here.
         let size_sans_payload = packet
-            .to_bytes()
+            .to_bytes_unlimited()
             .expect("Internal error encoding packet")
             .len();
         packet.payload = moved_payload;
